@@ -95,7 +95,7 @@ def add_with_id(ctx, rule):
     nm = named(tb, lambda s: s in ("Token::get_name(arg2)", "Option::None{}"))
     troles = {nm[0]: "NAME"} if nm else {}
     calls = [q.shape(tb.expr_of_call(t), troles) for bi, t in q.calls_to(tb, B + "add_with_id")]
-    want = "SourceMapBuilder::add_with_id(arg1,Token::get_dst_line(arg2),Token::get_dst_col(arg2),Token::get_src_line(arg2),Token::get_src_col(arg2),Token::get_source(arg2),Token::get_src_id(arg2),NAME,Token::is_range(arg2))"
+    want = "SourceMapBuilder::add_with_id(arg1,arg2.raw.dst_line,arg2.raw.dst_col,arg2.raw.src_line,Token::get_src_col(arg2),Token::get_source(arg2),arg2.raw.src_id,NAME,arg2.raw.is_range)"
     alt = want.replace("NAME", "Option::flatten(bool::then(arg3,%s(Token::get_name(arg2))))" % LAM)  # with_name.then(|| token.get_name()).flatten()
     if [c.replace("^", "") for c in calls] == [alt]:
         calls = [want]
@@ -135,7 +135,7 @@ def rewrite_loop(ctx, rule):
         tdef = b.defs[inv["token"]][0][0]
         ctx.check(adds[0][0] == tdef or (b.dominates(tdef, adds[0][0]) and must_pass(b, tdef, [adds[0][0]])), rule, fn, "add_token:no-skip", "no path through the loop body skips the re-insertion")
     sets = q.calls_to(b, B + "set_source_contents")
-    ok = len(sets) == 1 and q.shape(b.expr_of_call(sets[0][1]), roles) == "SourceMapBuilder::set_source_contents(builder,raw.src_id,SourceMap::get_source_contents(arg1,Token::get_src_id(token)))"
+    ok = len(sets) == 1 and q.shape(b.expr_of_call(sets[0][1]), roles) == "SourceMapBuilder::set_source_contents(builder,raw.src_id,SourceMap::get_source_contents(arg1,token.raw.src_id))"
     ctx.check(ok, rule, fn, "contents:old-id", "contents are attached to the new id (raw.src_id) and looked up by the token's old id on the original map",
               detail=str([q.shape(b.expr_of_call(t), roles) for _, t in sets]))
     for bi, t in sets:
@@ -507,9 +507,9 @@ def flatten_roles(b):
     for l in sorted(b.var_names):
         if "Cow<" in b.local_ty(l) and "SourceMap" in b.local_ty(l):
             roles[l] = "map"
-    for l in named(b, lambda s: s == "SourceMapSection::get_offset(try(SourceMapSectionIter::next(var:SourceMapSectionIter))).0"):
+    for l in named(b, lambda s: s == "try(SourceMapSectionIter::next(var:SourceMapSectionIter)).offset.0"):
         roles[l] = "off_line"
-    for l in named(b, lambda s: s == "SourceMapSection::get_offset(try(SourceMapSectionIter::next(var:SourceMapSectionIter))).1"):
+    for l in named(b, lambda s: s == "try(SourceMapSectionIter::next(var:SourceMapSectionIter)).offset.1"):
         roles[l] = "off_col"
     return roles
 
@@ -544,30 +544,30 @@ def flatten_translation(ctx, rule):
         return [(q.shape(expr, r), (ab, len(b.blocks[ab]["stmts"])))]
 
     rest = [q.shape(x, r) for x in args[3:]]
-    want_rest = ["Token::get_src_line(token)", "Token::get_src_col(token)", "Token::get_source(token)", "Token::get_name(token)", "Token::is_range(token)"]
+    want_rest = ["token.raw.src_line", "Token::get_src_col(token)", "Token::get_source(token)", "Token::get_name(token)", "token.raw.is_range"]
     ctx.check(q.shape(args[0], r) == "builder" and rest == want_rest, rule, fn, "add:positional",
               "original line/column, source name, name and range flag are forwarded in order (nothing swapped)", detail=str(rest))
     ck = lambda a, o: ["try(Option::ok_or_else(u32::checked_add(%s,%s),*))" % (a, o), "try(Option::ok_or(u32::checked_add(%s,%s),*))" % (a, o), "try(u32::checked_add(%s,%s))" % (a, o),
                        "Add(%s,%s)" % tuple(sorted([a, o])), "u32::saturating_add(%s,%s)" % (a, o)]
     ds = alternatives(args[1])
-    ok = len(ds) == 1 and any(q.wild(p, ds[0][0]) for p in ck("Token::get_dst_line(token)", "off_line"))
+    ok = len(ds) == 1 and any(q.wild(p, ds[0][0]) for p in ck("token.raw.dst_line", "off_line"))
     ctx.check(ok, rule, fn, "line:shift", "every token moves down by the section's line offset", detail=str([d[0] for d in ds])[:300])
     found = {}
     for sh_, site in alternatives(args[2]):
-        if any(q.wild(p, sh_) for p in ck("Token::get_dst_col(token)", "off_col")):
+        if any(q.wild(p, sh_) for p in ck("token.raw.dst_col", "off_col")):
             found.setdefault("shifted", []).append(site)
-        elif sh_ == "Token::get_dst_col(token)":
+        elif sh_ == "token.raw.dst_col":
             found.setdefault("plain", []).append(site)
         else:
             ctx.bad(rule, fn, "col:def:%s" % sh_[:60], "the generated column is either the token's column or the column plus the section's column offset", ctx.site(b, *site))
     ctx.check("shifted" in found and "plain" in found, rule, fn, "col:both-arms", "both the shifted and the unshifted column occur")
     for site in found.get("shifted", []):
-        ctx.check(has_fact(b, site[0], r, ("Eq", "0", "Token::get_dst_line(token)")), rule, fn, "col:first-line-only", "the column offset is applied on the section's first line only", ctx.site(b, *site))
+        ctx.check(has_fact(b, site[0], r, ("Eq", "0", "token.raw.dst_line")), rule, fn, "col:first-line-only", "the column offset is applied on the section's first line only", ctx.site(b, *site))
     for site in found.get("plain", []):
-        ctx.check(has_fact(b, site[0], r, ("Ne", "0", "Token::get_dst_line(token)")), rule, fn, "col:later-lines-unshifted", "later lines keep their column", ctx.site(b, *site))
+        ctx.check(has_fact(b, site[0], r, ("Ne", "0", "token.raw.dst_line")), rule, fn, "col:later-lines-unshifted", "later lines keep their column", ctx.site(b, *site))
     # R3 ids
     sets = [(bi, q.shape(b.expr_of_call(t), r)) for bi, t in q.calls_to(b, B + "set_source_contents")]
-    want = "SourceMapBuilder::set_source_contents(builder,raw.src_id,SourceMap::get_source_contents(map,Token::get_src_id(token)))"
+    want = "SourceMapBuilder::set_source_contents(builder,raw.src_id,SourceMap::get_source_contents(map,token.raw.src_id))"
     ctx.check([s for _, s in sets] == [want], rule, fn, "contents:new-id/old-id", "contents go to the new id and are read by the old id from the section's map", detail=str(sets))
     for bi, s in sets:
         ctx.check(has_fact(b, bi, r, ("true", "Option::is_some(Token::get_source(token))", None)), rule, fn, "contents:has-source", "only for tokens with a source (so the new id is not the tombstone)", ctx.site(b, bi))
@@ -575,12 +575,12 @@ def flatten_translation(ctx, rule):
     ig = [(bi, q.shape(b.expr_of_call(t), r)) for bi, t in q.calls_to(b, B + "add_to_ignore_list")]
     ctx.check([s for _, s in ig] == ["SourceMapBuilder::add_to_ignore_list(builder,raw.src_id)"], rule, fn, "ignore:new-id", "ignore-list membership is recorded under the new id", detail=str(ig))
     for bi, s in ig:
-        ctx.check(has_fact(b, bi, r, ("true", "BTreeSet::contains(map.ignore_list,Token::get_src_id(token))", None)), rule, fn, "ignore:old-id", "membership is tested with the old id on the section's map", ctx.site(b, bi))
+        ctx.check(has_fact(b, bi, r, ("true", "BTreeSet::contains(map.ignore_list,token.raw.src_id)", None)), rule, fn, "ignore:old-id", "membership is tested with the old id on the section's map", ctx.site(b, bi))
     # the two carry-overs are independent: neither is nested under the other's conditions
     def bool_facts(bb):
         return sorted(set((f.op, str(f.l)) for f in q.facts_at(b, bb, r) if f.op in ("true", "false")))
     for bi, s_ in ig:
-        extra = [f for f in bool_facts(bi) if f != ("true", "BTreeSet::contains(map.ignore_list,Token::get_src_id(token))")]
+        extra = [f for f in bool_facts(bi) if f != ("true", "BTreeSet::contains(map.ignore_list,token.raw.src_id)")]
         ctx.check(not extra, rule, fn, "ignore:independent", "ignore-list membership is carried over for every token of an ignored source, independently of the contents handling", ctx.site(b, bi), detail=str(extra))
     for bi, s_ in sets:
         extra = [f for f in bool_facts(bi) if f not in (("true", "Option::is_some(Token::get_source(token))"), ("false", "SourceMapBuilder::has_source_contents(builder,raw.src_id)"))]
@@ -608,7 +608,7 @@ def index_lookup(ctx, rule):
     fw = sorted(sh for sh, _, _ in q.def_shapes(dm, 0, {}))
     ctx.check(len(fw) == 3 and all(q.wild("*::lookup_token(*,arg2,arg3)", sh) for sh in fw), rule, dm.path, "dispatch:same-query",
               "a section's map of any kind (regular, index, Hermes) is asked for the very (line, column) it was given", detail=str(fw))
-    GLBS = "try(utils::greatest_lower_bound(arg1.sections,tuple(arg2,arg3),fn:SourceMapSection::get_offset))"
+    GLBS = "try(utils::greatest_lower_bound(arg1.sections,tuple(arg2,arg3),\u03bb(p1.offset)))"
     sec = named(b, lambda s: s == GLBS + ".1")
     mp = named(b, lambda s: s.startswith("try(SourceMapSection::get_sourcemap("))
     if not ctx.check(len(sec) == 1 and len(mp) == 1, rule, fn, "roles", "the section is selected with greatest_lower_bound over self.sections keyed by get_offset with query (line, col)"):
@@ -616,8 +616,8 @@ def index_lookup(ctx, rule):
     roles = {sec[0]: "section", mp[0]: "map"}
     for l in named(b, lambda s: True):
         pass
-    ol = [l for l in sorted(b.var_names) for s, _, _ in q.def_shapes(b, l, roles) if s == "SourceMapSection::get_offset(section).0"]
-    oc = [l for l in sorted(b.var_names) for s, _, _ in q.def_shapes(b, l, roles) if s == "SourceMapSection::get_offset(section).1"]
+    ol = [l for l in sorted(b.var_names) for s, _, _ in q.def_shapes(b, l, roles) if s == "section.offset.0"]
+    oc = [l for l in sorted(b.var_names) for s, _, _ in q.def_shapes(b, l, roles) if s == "section.offset.1"]
     if not ctx.check(len(ol) == 1 and len(oc) == 1, rule, fn, "offsets", "line and column offset are components 0 and 1 of the section's offset"):
         return
     roles[ol[0]] = "off_line"
@@ -650,7 +650,7 @@ def sections_sorted(ctx, rule):
         return
     roles = {sec[0]: "sections"}
     sorts = [(bi, q.shape(b.expr_of_call(t), roles)) for bi, t in b.calls() if q.nice(t.get("callee")) in ("slice::sort_by_key", "slice::sort_unstable_by_key")]
-    ctx.check([s for _, s in sorts] in (["slice::sort_by_key(sections,fn:SourceMapSection::get_offset)"], ["slice::sort_unstable_by_key(sections,fn:SourceMapSection::get_offset)"]), rule, fn, "sort",
+    ctx.check([s for _, s in sorts] in (["slice::sort_by_key(sections,\u03bb(p1.offset))"], ["slice::sort_unstable_by_key(sections,\u03bb(p1.offset))"]), rule, fn, "sort",
               "sections are sorted by offset", detail=str(sorts))
     ctor = [(bi, q.shape(b.expr_of_call(t), roles)) for bi, t in b.calls() if q.nice(t.get("callee")) in ("SourceMapIndex::new_ram_bundle_compatible", "SourceMapIndex::new")]
     ok = len(ctor) == 1 and len(sorts) == 1 and b.dominates(sorts[0][0], ctor[0][0]) and ",sections," in ctor[0][1]
